@@ -872,11 +872,6 @@ def rule_dfg(ctx):
                     ctx.ob("dfg", f, f.node, label + ztxt,
                            "the result term equals the published %s in this case (Herbrand normal form modulo 2^%d)" % ("FastHash64" if name == "fasthash64" else "MurmurHash3_x86_32", f.rtype.bits),
                            d is None, "" if d is None else d)
-        for r in range(B):
-            if not any(k[0] == r for k in seen):
-                ctx.ob("dfg", f, f.node, "%s: residue %d" % (name, r), "every tail length has a path", False, "no path handles len %% %d == %d" % (B, r))
-        if not any(k[1] for k in seen):
-            ctx.ob("dfg", f, f.node, "%s: block loop" % name, "whole blocks are folded on some path", False, "no path runs the block loop")
     # fasthash32 = low-entropy fold of fasthash64
     f = ctx.model.func("hashes", "fasthash32")
     ctx.analysed_funcs.add(f.key)
